@@ -505,7 +505,26 @@ fn runtype_any_of_discriminated(
                             .any(|it| it == *current_key)
                     })
                     .map(|vs| {
-                        Runtype::object(vs.iter().map(|it| (it.0.clone(), it.1.clone())).collect())
+                        Runtype::object(
+                            vs.iter()
+                                .map(|it| {
+                                    // the variant listed under a discriminator value describes the
+                                    // documents carrying that value only: a branch that admits several
+                                    // values would otherwise appear under each of them unchanged, and
+                                    // no document could match exactly one variant of the oneOf
+                                    if *it.0 == discriminator
+                                        && extract_union(it.1.inner(), named_schemas).len() > 1
+                                    {
+                                        (
+                                            it.0.clone(),
+                                            Runtype::single_string_const(current_key).required(),
+                                        )
+                                    } else {
+                                        (it.0.clone(), it.1.clone())
+                                    }
+                                })
+                                .collect(),
+                        )
                     })
                     .collect::<Vec<_>>();
                 // every branch admits this discriminator value: dispatching again on the same
